@@ -30,6 +30,9 @@ pub struct FlushCase {
     pub size_limit: u32,
     pub reuse: bool,
     pub default_writer: bool,
+    /// retryable IO faults (never on flush/sync) keyed by filesystem-call index; hook H1 shortens the back-off
+    #[serde(default)]
+    pub faults: Vec<(u16, crate::FaultKind)>,
 }
 
 pub fn flush_case() -> impl Strategy<Value = FlushCase> {
@@ -45,8 +48,15 @@ pub fn flush_case() -> impl Strategy<Value = FlushCase> {
         prop_oneof![100u32..2000, Just(1u32 << 30)],
         any::<bool>(),
         any::<bool>(),
+        prop_oneof![
+            2 => Just(Vec::new()),
+            1 => prop::collection::vec(
+                (0u16..60, prop_oneof![Just(crate::FaultKind::Err), (0u8..30).prop_map(crate::FaultKind::PartialErr), (1u8..10).prop_map(crate::FaultKind::ShortOk)]),
+                1..4,
+            ),
+        ],
     )
-        .prop_map(|(threads, roll, size_limit, reuse, default_writer)| FlushCase { threads, roll, size_limit, reuse, default_writer })
+        .prop_map(|(threads, roll, size_limit, reuse, default_writer, faults)| FlushCase { threads, roll, size_limit, reuse, default_writer, faults })
 }
 
 fn synced_bytes(fs: &Fs) -> Vec<u8> {
@@ -66,6 +76,16 @@ fn contains(hay: &[u8], needle: &[u8]) -> bool {
 
 pub fn check_flush(c: &FlushCase, cx: &mut Cx) -> vcore::Res {
     let fs = Fs::default();
+    {
+        let mut g = fs.0.lock().unwrap();
+        g.spare_sync = true;
+        for (i, k) in &c.faults {
+            g.plan.insert(*i as usize, *k);
+        }
+    }
+    // hook H1: the channel's 700 ms … 10 s back-off (and idle delay) divided so retries cost milliseconds
+    emit_batcher::verif::set_delay_divisor(if c.faults.is_empty() { 1 } else { 2000 });
+    cx.class_if(!c.faults.is_empty(), "file-e2e:with-io-faults");
     let clock = VClock(Arc::new(Mutex::new(EPOCH_2024_MS + 1_000_000)));
     let rng = VRng(Arc::new(Mutex::new(7)));
     let builder = if c.default_writer {
@@ -169,7 +189,15 @@ pub fn check_flush(c: &FlushCase, cx: &mut Cx) -> vcore::Res {
                 if rec.is_empty() {
                     continue;
                 }
-                let ok = if c.default_writer {
+                let truncated_ok = !c.faults.is_empty() && {
+                    // a fault may leave a truncated prefix of ONE event (of the formatted text of any event)
+                    if c.default_writer {
+                        rec.first() == Some(&b'{') && rec.windows(7).filter(|w| w == b"\"mdl\":\"").count() <= 1 && rec.iter().filter(|b| **b == b'{').count() <= 1
+                    } else {
+                        rec.first() == Some(&b'<') && rec.iter().filter(|b| **b == b'<').count() == 1
+                    }
+                };
+                let ok = truncated_ok || if c.default_writer {
                     rec.first() == Some(&b'{') && rec.last() == Some(&b'}') && rec.windows(7).filter(|w| w == b"\"mdl\":\"").count() == 1
                 } else {
                     rec.first() == Some(&b'<') && rec.last() == Some(&b'>') && rec.iter().filter(|b| **b == b'<').count() == 1
